@@ -47,8 +47,28 @@ def call(repo, it, obj, name, **args):
     k, fn = method(repo, it, obj, name)
     a = dict(args)
     a[fn.args.args[0].arg] = obj
+    mark = len(it.partial_rejections)
     rets, raises, _ = irun(it, k.module, fn, a, obj.cls, k)
+    rets.partial = it.partial_rejections[mark:]
     return rets, raises, k, fn
+
+
+def cutoff_rejections(rets):
+    """Conditions on the integer cutoff alone under which some trace raises although other traces return:
+    [(facts about `cutoff`, raise node)].  The property quantifies over *every* integer cutoff."""
+    out = []
+    recs = list(getattr(rets, "partial", ()))
+    for r in getattr(rets, "raises", ()):
+        recs.append(type("R", (), {"facts": r[0].facts, "node": r[1]})())
+    for r in recs:
+        facts = getattr(r, "facts", None)
+        node = r[0] if isinstance(r, tuple) else r.node
+        if facts is None:
+            continue
+        cond = [f for f, _ in facts.items if f.symbols() == {"cutoff"}]
+        if cond and not any(repr(cond) == repr(c) for c, _ in out):
+            out.append((cond, node))
+    return out
 
 
 def distinct(vals):
@@ -86,9 +106,18 @@ def judge(ctx, rule, construct, rets, want, wf, loc, what):
         return None
     wrong = [v for v in vals if not v == want]
     if wrong:
-        ctx.violation(rule, construct, "%s: got %r, expected %r" % (what, wrong[0], want), loc,
+        note = ""
+        if "from-first-" in repr(wrong[0]):
+            note = " (values[mask.argmax():] is the whole vector when the mask is all False: argmax of an all-False mask is 0)"
+        ctx.violation(rule, construct, "%s: got %r, expected %r%s" % (what, wrong[0], want, note), loc,
                       witness={"got": repr(wrong[0]), "expected": repr(want)})
         return None
+    rej = cutoff_rejections(rets)
+    if rej:
+        cond, node = rej[0]
+        ctx.violation(rule, construct + ":every-cutoff", "%s: integer cutoffs with %s are rejected (line %s); only a missing "
+                      "cutoff may be" % (what, " and ".join("%r <= 0" % f for f in cond), getattr(node, "lineno", "?")), loc,
+                      witness={"rejected_cutoffs": [repr(f) for f in cond]})
     ctx.ok(rule, construct, "%s == %r" % (what, want), loc)
     return vals[0]
 
@@ -394,6 +423,19 @@ def rule_r4(ctx, repo):
 
 
 # ------------------------------------------------------------------------------ R5
+def plain(v):
+    """Normal form modulo value-preserving container conversions (``np.asarray(x)`` without dtype)."""
+    if isinstance(v, TV):
+        if v.tag == "asarray" and len(v.args) == 1:
+            return plain(v.args[0])
+        return TV(v.kind, v.tag, [plain(a) for a in v.args])
+    if isinstance(v, Obj) and not v.mutable:
+        return Obj(v.cls, {k: plain(a) for k, a in v.attrs.items()})
+    if isinstance(v, Opq):
+        return Opq(v.tag, [plain(a) for a in v.args])
+    return v
+
+
 def rule_r5(ctx, repo):
     mod = repo.module(VAL_PATH)
     fn = repo.func(VAL_PATH, "check_fh")
@@ -486,9 +528,11 @@ def rule_r5(ctx, repo):
             if not all(it.is_fh(v) and isinstance(v.attrs.get("_is_relative"), K) for v in vals):
                 ctx.undecided("R5", cons, "result not interpretable: %r" % (vals,), loc)
                 continue
-            ctx.check(all(v == want for v in vals), "R5", cons,
-                      "wrapped as ForecastingHorizon(values, is_relative=True)",
-                      "wrapped as %r, expected %r" % (vals, want), loc)
+            casts = [v for v in vals if "cast(" in repr(v)]
+            ctx.check(all(plain(v) == plain(want) for v in vals), "R5", cons,
+                      "the caller's values reach ForecastingHorizon(values, is_relative=True) unchanged",
+                      "wrapped as %r, expected %r%s" % (vals, want, " -- the values are cast before validation, so fractional steps "
+                                                        "are truncated instead of rejected" if casts else ""), loc)
             if kind != "builtins.int":
                 for s, v in rets:
                     nonempty(it, s, v, cons + ":non-empty")
